@@ -126,6 +126,30 @@ func init() {
 		setEditKeepOrder(h, p, e)
 	}})
 
+	// merge shapes git-bug's own merge never writes but the format allows: a merge one of whose
+	// parents is an ancestor of the other, listed first or last, and a merge with its parents swapped
+	for _, first := range []bool{true, false} {
+		first := first
+		name := "redundant-merge-ancestor-listed-last-control"
+		if first {
+			name = "redundant-merge-ancestor-listed-first-control"
+		}
+		add(mutation{Name: name, Level: "commit", Verdict: "accept", Props: "C03 C07", Applies: func(h *history, c, o int) bool {
+			return c != h.head()
+		}, Apply: func(h *history, c, o int) {
+			last := h.head()
+			ps := []int{last, c}
+			if first {
+				ps = []int{c, last}
+			}
+			h.Nodes = append(h.Nodes, &node{Spec: model.PackSpec{Author: h.Nodes[0].Spec.Author, Version: 4, Edit: h.maxEdit() + 1}, Parents: ps})
+		}})
+	}
+	add(mutation{Name: "merge-parents-swapped-control", Level: "commit", Verdict: "accept", Props: "C03", Applies: isMerge, Apply: func(h *history, c, o int) {
+		ps := h.Nodes[c].Parents
+		ps[0], ps[len(ps)-1] = ps[len(ps)-1], ps[0]
+	}})
+
 	// ---- tree entries
 	add(mutation{Name: "ops-entry-missing", Level: "commit", Verdict: "reject", Props: "C07", Applies: hasOps, Apply: func(h *history, c, o int) {
 		setEntries(h, c, dropEntry(editEntries(h, c), "ops"))
